@@ -140,6 +140,8 @@ class RefPromotion(RefRungs):
                 res = self._eligible_cost(entries, level)
             else:
                 res = self._eligible_quantile(entries, level)
+            if res == "ambiguous":
+                return {"ambiguous": True}
             if res is not None:
                 acc, sure = res
                 return {"level": level, "next": self.next_level(level), "accept": acc, "sure": sure}
@@ -171,6 +173,8 @@ class RefPromotion(RefRungs):
         C(k) <= q*C(N); any not yet promoted entry ranked <= K can be promoted, best first."""
         if len(entries) < 2:
             return None
+        if len({e["value"] for e in entries}) < len(entries):
+            return "ambiguous"
         order = sorted(entries, key=lambda e: e["value"], reverse=(self.mode == "max"))
         total = sum(e["cost"] for e in order)
         thr = self.q(level) * total
